@@ -1971,9 +1971,17 @@ class ScopeStack:
             # VV: Argument values may ONLY reference parameters of the parent scope
             parent_parameters = self.get_parent_parameter_names()
 
+            def string_values(what: ParameterValueType) -> typing.Iterator[str]:
+                # VV: a dictionary-valued argument (e.g. an environment) may use parameters in its values
+                if isinstance(what, str):
+                    yield what
+                elif isinstance(what, dict):
+                    for inner in what.values():
+                        yield from string_values(inner)
+
             for name, value in scope.parameters.items():
-                if isinstance(value, str):
-                    refs = rg_param.findall(value)
+                for text in string_values(value):
+                    refs = rg_param.findall(text)
                     for match in refs:
                         # VV: throw away "%(" and ")s"
                         param = match[2:-2]
